@@ -119,6 +119,10 @@ def run(prop, mod, repo_root, seed, evidence_dir=None):
     finally:
         shutil.rmtree(work, ignore_errors=True)
 
+    # (c) trusted-base check: the engine's exact matcher agrees with re on
+    # words sampled from the automata of the regexes this property consults
+    engine = _engine_crosscheck(prop, mod, repo_root, seed)
+
     ev_dir = evidence_dir or os.path.join(VERIF, 'evidence')
     ev_path = os.path.join(ev_dir, f"{prop}.json")
     try:
@@ -128,12 +132,17 @@ def run(prop, mod, repo_root, seed, evidence_dir=None):
             'seeded_breakages_reported': killed, 'seeded_breakages_missed': survived,
             'seeded_not_applicable_to_this_tree': skipped,
             'benign_variants_silent': silent, 'benign_variants_alarmed': alarmed,
+            'engine_crosscheck': engine,
         }
         json.dump(ev, open(ev_path, 'w'), indent=1, ensure_ascii=False)
     except Exception:
         pass
     print(f"{prop} selftest: {len(killed)}/{len(killed) + len(survived)} seeded breakages reported"
           f" ({len(skipped)} do not apply to this tree), {len(silent)}/{len(silent) + len(alarmed)} benign variants silent")
+    if engine.get('disagreements'):
+        for d in engine['disagreements'][:5]:
+            print(f"ANALYSIS-ERROR property={prop} selftest: engine matcher disagrees with re: {d}")
+        return 2
     if survived or alarmed:
         for s in survived:
             print(f"ANALYSIS-ERROR property={prop} selftest: seeded breakage {s} was not reported")
@@ -141,3 +150,39 @@ def run(prop, mod, repo_root, seed, evidence_dir=None):
             print(f"ANALYSIS-ERROR property={prop} selftest: benign variant alarmed: {a}")
         return 2
     return 0
+
+
+def _engine_crosscheck(prop, mod, repo_root, seed):
+    """Lang (our exact set-of-positions matcher) vs re.fullmatch/search on
+    words sampled from each regex's automaton.  Validates the analyser, not
+    the repository."""
+    import random
+    import re
+    from .core import Ctx
+    from . import rx
+    from .rules import common
+    fams = set(mod.META.get('families', []))
+    if not any(f.startswith('RX-') for f in fams):
+        return {'skipped': 'property uses no regex-language rule'}
+    ctx = Ctx(prop, repo_root, 'quick', seed)
+    rng = random.Random(seed)
+    checked = 0
+    dis = []
+    inv = [r for r in common.regex_inventory(ctx) if r['rv'] is not None]
+    rng.shuffle(inv)
+    for r in inv[:25]:
+        rv = r['rv']
+        try:
+            L = rx.Lang(rv.pattern, rv.flags)
+            cre = re.compile(rv.pattern, rv.flags)
+            words = rx.sample_words(rv.pattern, rv.flags, 12, rng)
+        except Exception as e:        # noqa
+            dis.append(f"{r['name']}: {type(e).__name__}: {e}")
+            continue
+        for w in words:
+            checked += 1
+            a, b = L.fullmatch(w), cre.fullmatch(w) is not None
+            c, d = L.search(w), cre.search(w) is not None
+            if a != b or c != d:
+                dis.append(f"{r['name']} on {w!r}: engine fullmatch={a} search={c}, re fullmatch={b} search={d}")
+    return {'regexes': min(25, len(inv)), 'words_compared': checked, 'disagreements': dis}
